@@ -89,7 +89,7 @@ void appendShellEscapedString(llvm::raw_ostream& os, StringRef string) {
   os << formatWindowsCommandArg(string);
   return;
 #else
-  static const std::string whitelist = "abcdefghijklmnopqrstuvwxyzABCDEFGHIJKLMNOPQRSTUVWXYZ1234567890-_/:@#%+=.,";
+  static const std::string whitelist = "abcdefghijklmnopqrstuvwxyzABCDEFGHIJKLMNOPQRSTUVWXYZ1234567890-_/:@%+=.,";
   auto pos = string.find_first_not_of(whitelist);
 
   // We don't need any escaping just append the string and return.
